@@ -218,6 +218,15 @@ class OnceIter:
         return iter(self.abs_iter())
 
 
+def fresh_number(x):
+    """What an array hands out for a cell: a new python number object each time (identity is never shared)."""
+    if isinstance(x, int) and not isinstance(x, bool) and not -5 <= x <= 256:
+        return int(str(x))
+    if isinstance(x, float):
+        return float(repr(x))
+    return x
+
+
 class LazyIter(OnceIter):
     """A generator expression: its outermost iterable is evaluated when the expression is, everything else when the
     generator is first consumed - free variables are read then (late binding)."""
@@ -256,7 +265,7 @@ class Mat(Obj):
         self.dtype = None
         self.methods = {
             "flatten": lambda ev, call, args, kw: Vec([x for r in self.rows for x in r]),
-            "tolist": lambda ev, call, args, kw: [list(r) for r in self.rows],
+            "tolist": lambda ev, call, args, kw: [[fresh_number(x) for x in r] for r in self.rows],
             "transpose": lambda ev, call, args, kw: Mat([list(c) for c in zip(*self.rows)]) if self.rows else Mat([]),
             "copy": lambda ev, call, args, kw: Mat([list(r) for r in self.rows]),
             "astype": lambda ev, call, args, kw: self._astype(args[0] if args else kw.get("dtype"), call),
@@ -271,6 +280,7 @@ class Mat(Obj):
             "min": lambda ev, call, args, kw: self._reduce(min, kw.get("axis", args[0] if args else None), call),
             "mean": lambda ev, call, args, kw: self._mean(kw.get("axis", args[0] if args else None), call),
             "argsort": lambda ev, call, args, kw: self._argsort(kw.get("axis", args[0] if args else -1), call),
+            "reshape": lambda ev, call, args, kw: self._reshape(args, call),
             "nonzero": lambda ev, call, args, kw: (Vec([i for i, r in enumerate(self.rows) for x in r if x]),
                                                    Vec([j for r in self.rows for j, x in enumerate(r) if x])),
         }
@@ -288,6 +298,26 @@ class Mat(Obj):
         if axis == 0:
             return Vec([f(c) for c in zip(*self.rows)])
         raise Unsupported("reduction axis", node)
+
+    def _reshape(self, args, node):
+        shape = tuple(args[0]) if len(args) == 1 and isinstance(args[0], (tuple, list)) else tuple(args)
+        cells = [x for r in self.rows for x in r]
+        if len(shape) == 1 and shape[0] in (-1, len(cells)):
+            out = Vec(cells)
+            out.dtype = self.dtype
+            return out
+        if len(shape) == 2 and all(isinstance(x, int) for x in shape):
+            r, c = shape
+            if r == -1 and c > 0 and len(cells) % c == 0:
+                r = len(cells) // c
+            elif c == -1 and r > 0 and len(cells) % r == 0:
+                c = len(cells) // r
+            if r >= 0 and c >= 0 and r * c == len(cells):
+                m = Mat([cells[i * c:(i + 1) * c] for i in range(r)])
+                m.dtype = self.dtype
+                return m
+            raise AbsRaise("ValueError", node)
+        raise Unsupported("reshape to this shape", node)
 
     def _argsort(self, axis, node):
         if axis in (1, -1):
@@ -905,6 +935,12 @@ def _compare(op: ast.cmpop, a, b, node):
             a, b = d.const, 0
         else:
             raise Unsupported(f"comparison of symbolic values {a!r} {type(op).__name__} {b!r}", node)
+    if isinstance(op, (ast.Is, ast.IsNot)) and isinstance(a, int) and isinstance(b, int) \
+            and not isinstance(a, bool) and not isinstance(b, bool):
+        # CPython keeps one object per integer of -5..256 only: beyond, two equal integers computed separately are
+        # distinct objects (the evaluator's own integers behave the same way, array exports make fresh ones)
+        same = (a == b) if (-5 <= a <= 256 and -5 <= b <= 256) else (a is b)
+        return same if isinstance(op, ast.Is) else not same
     if isinstance(op, ast.Is):
         return a is b
     if isinstance(op, ast.IsNot):
@@ -1045,13 +1081,19 @@ class Evaluator:
         (Immutable defaults are simply re-evaluated.)"""
         if default_values is not None:
             return default_values[j]
-        cache = getattr(fnode, "_csa_defaults", None)
-        if cache is None:
-            cache = {}
-            try:
-                fnode._csa_defaults = cache
-            except AttributeError:
-                pass
+        # one table of evaluated defaults per "process": the runtime of the world being evaluated (a fresh world is a
+        # fresh process), else the function node itself
+        if self.runtime is not None:
+            table = self.runtime.__dict__.setdefault("default_values", {})
+            cache = table.setdefault(id(fnode), {})
+        else:
+            cache = getattr(fnode, "_csa_defaults", None)
+            if cache is None:
+                cache = {}
+                try:
+                    fnode._csa_defaults = cache
+                except AttributeError:
+                    pass
         if j not in cache:
             v = self.ev(expr)
             if not isinstance(v, (list, dict, set)):
@@ -1458,6 +1500,11 @@ class Evaluator:
             raise Unsupported("slice of abstract value", n)
         idx = self.ev(n.slice)
         if isinstance(base, Sym):
+            if isinstance(idx, Mat) and type(idx) is Mat:
+                return Mat([[base[x] for x in r] for r in idx.rows])
+            if isinstance(idx, (Vec, list)) and all(isinstance(x, int) and not isinstance(x, bool)
+                                                    for x in (idx.vals if isinstance(idx, Vec) else idx)):
+                return Vec([base[x] for x in (idx.vals if isinstance(idx, Vec) else idx)])
             return base[idx]
         if isinstance(base, Vec):
             if isinstance(idx, tuple) and len(idx) == 2 and idx[0] == slice(None) and idx[1] is None:
@@ -1468,6 +1515,15 @@ class Evaluator:
                 return Vec([base.vals[i] for i in idx.vals])
             if isinstance(idx, list) and all(isinstance(m, int) and not isinstance(m, bool) for m in idx):
                 return Vec([base.vals[i] for i in idx])
+            if isinstance(idx, Mat) and type(idx) is Mat and all(isinstance(x, int) and not isinstance(x, bool)
+                                                                 for r in idx.rows for x in r):
+                for r in idx.rows:
+                    for x in r:
+                        if not -len(base.vals) <= x < len(base.vals):
+                            raise IndexOut(x, len(base.vals), n)
+                return Mat([[base.vals[x] for x in r] for r in idx.rows])      # a look-up table applied cell by cell
+            if isinstance(idx, Vec) and not idx.vals and idx.dtype != "bool_":
+                return Vec([])                              # an empty integer index array selects nothing
             if isinstance(idx, Vec):
                 if len(idx.vals) != len(base.vals):
                     raise AbsRaise("IndexError", n)         # boolean index did not match the indexed array
@@ -2064,9 +2120,32 @@ class Evaluator:
                 b_ = self.ev(target.value)
             except Unsupported:
                 b_ = None
-            if isinstance(b_, Obj) and not isinstance(b_, (Sym, Lin)) and not hasattr(b_, "abs_store_effect"):
-                # a concrete object of the abstract state: a store that is not modelled is refused, never skipped
-                raise Unsupported(f"store into {b_!r} with this index", stmt)
+            if isinstance(b_, list) and isinstance(target.slice, ast.Slice):
+                # list slice assignment / augmented assignment on the list object itself
+                sl = self.ev(target.slice)
+                if hasattr(value, "abs_iter"):
+                    value = list(value.abs_iter())
+                elif isinstance(value, Vec):
+                    value = list(value.vals)
+                elif isinstance(value, (set, frozenset)):
+                    value = set_items(value)
+                elif isinstance(value, dict):
+                    value = list(value)
+                if not isinstance(value, (list, tuple, str)):
+                    raise AbsRaise("TypeError", stmt)       # can only assign an iterable
+                if op == "=":
+                    try:
+                        b_[sl] = list(value)
+                    except ValueError:
+                        raise AbsRaise("ValueError", stmt)  # extended slice of a different size
+                    return
+                if op == "+=":
+                    b_[sl] = b_[sl] + list(value)
+                    return
+                raise Unsupported("augmented assignment to a list slice", stmt)
+            if b_ is not None and not isinstance(b_, (Sym, Lin)) and not hasattr(b_, "abs_store_effect"):
+                # a concrete value of the abstract state: a store that is not modelled is refused, never skipped
+                raise Unsupported(f"store into {type(b_).__name__} with this index", stmt)
         # alias resolution: a name bound to a Sym is a *view* of the symbol (cost_elem1_elem2 = matrix[e1][e2])
         key = self._alias_key(target)
         self.effects.append(Effect(key, op, value, stmt))
@@ -2436,6 +2515,8 @@ class Evaluator:
     def _maybe_obj(self, node: ast.AST) -> Optional[Obj]:
         try:
             v = self.ev(node)
+        except IndexOut:
+            raise
         except Unsupported:
             return None
         if isinstance(v, Obj):
@@ -2448,6 +2529,8 @@ class Evaluator:
         """Method call on a concrete python container held in the abstract environment."""
         try:
             base = self.ev(call.func.value)
+        except IndexOut:
+            raise
         except Unsupported:
             return False, None
         attr = call.func.attr
@@ -2461,7 +2544,7 @@ class Evaluator:
             base[:] = [base[i] for i in order]
             return True, None
         if isinstance(base, (list, set, frozenset, dict, str, tuple)) and not call.keywords:
-            args = [self.ev(a) for a in call.args]
+            args, _kw = self._call_args(call)
             if attr in ("extend", "update", "intersection", "union", "difference", "issubset", "issuperset", "join",
                         "isdisjoint", "symmetric_difference", "difference_update", "intersection_update"):
                 args = [list(a.abs_iter()) if hasattr(a, "abs_iter") else a for a in args]
@@ -2499,14 +2582,18 @@ class Evaluator:
     def _vec_call(self, call: ast.Call):
         try:
             base = self.ev(call.func.value)
+        except IndexOut:
+            raise
         except Unsupported:
             return False, None
         if not isinstance(base, Vec):
             return False, None
         attr = call.func.attr
-        args = [self.ev(a) for a in call.args]
+        args, _kw = self._call_args(call)
+        if _kw.get("axis") is not None and not args:
+            args = [_kw["axis"]]
         if attr == "tolist":
-            return True, list(base.vals)
+            return True, [fresh_number(x) for x in base.vals]
         if attr in ("copy", "flatten", "ravel") and not args:
             return True, Vec(list(base.vals))
         if attr == "fill" and len(args) == 1:
@@ -2550,7 +2637,7 @@ class Evaluator:
             return True, (max if attr == "max" else min)(base.vals)
         if attr in ("any", "all") and not args:
             return True, (any if attr == "any" else all)(bool(x) for x in base.vals)
-        if attr == "argsort" and not args:
+        if attr == "argsort" and (not args or args[0] in (0, -1)):
             return True, Vec(sorted(range(len(base.vals)), key=lambda i: base.vals[i]))
         if attr == "sort" and not args:
             if base.frozen:
